@@ -47,10 +47,16 @@ def design_level(ctx):
         refuted.append(variant)
     ctx.cov["wrong_designs_refuted_by_tlc"] = refuted
     if not q:
-        r = ctx.tlc("store", "MC_LogIndex", cfg="MC_LogIndex_vacuity.cfg", workers=W, timeout=1500, label="vacuity probes", count=False)
-        if r.invariant is None:
-            raise Infra("vacuity probe: the model never performs a reorganisation of depth 3 / a repairing resync")
-        ctx.cov["vacuity_probe"] = "deep reorganisations and repairing resyncs are reachable in the model"
+        # vacuity probes: each "never happens" property must be refuted
+        base = open(os.path.join(VERIF, "specs", "store", "MC_LogIndex_vacuity.cfg")).read()
+        for prop in ("NoDeepReorg", "NoResyncRepair"):
+            text = "\n".join(ln for ln in base.splitlines() if not ln.startswith("PROPERTY") or ln.split()[1] == prop) + "\n"
+            r = ctx.tlc("store", "MC_LogIndex", cfg="v.cfg", workers=W, timeout=1500, label="vacuity probe " + prop, count=False,
+                        files={"v.cfg": text})
+            if r.invariant is None:
+                raise Infra("vacuity probe %s: the model never does what the probe denies (%s)" % (prop, r.error or "no violation"))
+        ctx.cov["vacuity_probe"] = ("reachable in the model: a best-switch abandoning 3 blocks and re-writing 2 from the repository; "
+                                    "a resync after a crash that changes the tables")
 
 
 def run(ctx):
